@@ -1425,7 +1425,7 @@ def run(tier="quick", seed=0):
             # 10. connections made and dropped by the library itself
             al9 = setter_alphabet()
             c9 = Check("C14/library-setter-connections", "ListBox.body = walker (empty / non-empty SimpleListWalker and SimpleFocusListWalker, plain lists, a walker without the signal; two list boxes that may share a walker; switched away and back; walkers filled and emptied in between) and MainLoop.start()/stop(): after every operation the library's own handler is called exactly once per emit of the object it currently listens to and never by one it was switched away from; Button(on_press=, user_data=) / CheckBox / RadioButton(on_state_change=, user_data=): every emit made by the widget's own code (keys, mouse, set_state / toggle_state, a radio group switching a button off) calls the constructor's callback exactly once, before a later handler, with (widget, [new state,] user_data) for every user_data but None and (widget, [new state]) for None / absent, never during construction, never again after the documented disconnect_signal(widget, name, callback, user_data), still after a disconnect with other arguments", True,
-                       f"ListBox: histories of <= {3 if quick else 4} operations (at least one assignment) over a {len(al9)}-letter alphabet x 3 initial bodies, + 5 probing emits; MainLoop: histories of <= {4 if quick else 6} start/stop/emit operations, 2 loops on 1 or 2 screens; constructors: 3 widgets x user_data in {absent, None, 0, '', False, (), 0.0, [], 1, 'x', [1]} x keyword / positional x 3 rotations of the emitting operations x disconnect {same arguments, without the user_data, (None / absent:) bare / explicit None} + no callback given; 2 emits before and 2 after the disconnect")
+                       f"ListBox: histories of <= {3 if quick else 4} operations (at least one assignment) over a {len(al9)}-letter alphabet x 3 initial bodies, + 5 probing emits; MainLoop: histories of <= {4 if quick else 6} start/stop/emit operations, 2 loops on 1 or 2 screens; constructors: 3 widgets x user_data in (absent, None, 0, '', False, (), 0.0, [], 1, 'x', [1]) x keyword / positional x 3 rotations of the emitting operations x disconnect (same arguments / without the user_data / for None and absent: bare and explicit None) + no callback given; 2 emits before and 2 after the disconnect")
             for c in setter_histories(quick):
                 try:
                     why = run_setter_history(c)
